@@ -134,7 +134,7 @@ impl Monitor for C17 {
         vec![("loops", tier.pick(240_000, 4_800_000)), ("several", tier.pick(60_000, 1_200_000))]
     }
     fn rule(&self) -> &'static str {
-        "case i -> accumulation (i mod 5), input skips (i/5 mod 2), iterations k = 1 + (i/10 mod 4), representation (i/40 mod 3: dense range / spatial range of 'same' convolutions, deconvolutions, 1x1 pools and deconvolution+max-pool pairs / the same followed by a dense layer so that the loop output is flattened), position of the range (start / middle / end) and its length 1..3 random, every sixth network additionally has an additive skip connection outside the looped range; predict is compared with the reference (o_0 = first output of layer b, o_t = f_{a..b}(o_{t-1} [+ input of a]), passed on = combine(o_0; o_1..o_k)) within the running f32 bound; for overwrite without input skips additionally bit-exact against a plain library network in which layers a..b are physically repeated k+1 times with the same weights. several: chains of 4..8 layers with two or three loop connections over pairwise disjoint ranges (own iteration counts and input-skip flags, one shared accumulation), same oracle; for overwrite without input skips the network with every range physically repeated. Distinct = distinct configuration descriptors."
+        "case i -> accumulation (i mod 5), input skips (i/5 mod 2), iterations k = 1 + (i/10 mod 4), representation (i/40 mod 3: dense range / spatial range of 'same' convolutions, deconvolutions, 1x1 pools and deconvolution+max-pool pairs / the same followed by a dense layer so that the loop output is flattened), position of the range (start / middle / end) and its length 1..3 random, every sixth network additionally has an additive skip connection outside the looped range, every fifth has layers outside the range wrapped into feedback blocks; predict is compared with the reference (o_0 = first output of layer b, o_t = f_{a..b}(o_{t-1} [+ input of a]), passed on = combine(o_0; o_1..o_k)) within the running f32 bound; for overwrite without input skips additionally bit-exact against a plain library network in which layers a..b are physically repeated k+1 times with the same weights. several: chains of 4..8 layers with two or three loop connections over pairwise disjoint ranges (own iteration counts and input-skip flags, one shared accumulation), same oracle; for overwrite without input skips the network with every range physically repeated. Distinct = distinct configuration descriptors."
     }
     fn assumptions(&self) -> Vec<&'static str> {
         vec!["reference loop semantics written from the property statement (refmodel::RNet::forward)", "no skip connection targets a layer inside the loop range in the generated networks"]
@@ -188,6 +188,28 @@ impl Monitor for C17 {
                 cfg.skips = vec![*rng.pick(&outside)];
                 cfg.skipacc = Acc::Add;
                 out.count("networks_with_a_skip_connection_outside_the_loop", 1);
+            }
+        }
+        // every fifth network: layers outside the looped range become feedback blocks (a loop, a
+        // block and possibly a skip connection in one network)
+        if idx % 5 == 3 {
+            let before = cfg.clone();
+            let mut wrapped = 0;
+            for i in 0..cfg.layers.len() {
+                let outside = i < a || i > b;
+                let same = shapes[i].0 == shapes[i].1 && !shapes[i].2;
+                let plain = matches!(cfg.layers[i], LCfg::Dense { .. } | LCfg::Conv { .. } | LCfg::Deconv { .. });
+                let flat_before = i > 0 && shapes[i - 1].1.is_flat() != shapes[i].0.is_flat();
+                if outside && same && plain && !flat_before && rng.chance(0.5) {
+                    let body = vec![cfg.layers[i].clone()];
+                    cfg.layers[i] = LCfg::Feedback { body, loops: rng.range(1, 3), inskips: false, outskips: false, acc: Acc::Mean };
+                    wrapped += 1;
+                }
+            }
+            if cfg.shapes().is_err() {
+                cfg = before;
+            } else if wrapped > 0 {
+                out.count("networks_with_a_loop_and_feedback_blocks", 1);
             }
         }
         let flattened = shapes[b].2;
